@@ -6,7 +6,7 @@ ID = "C05"
 ANCHORS = 'deep_lift_shap._nonlinear,deep_lift_shap.hypothetical_attributions,deep_lift_shap.deep_lift_shap'.split(",")
 MIN_INSTANCES = 6
 # rule families whose findings in this module are derived by an engine (not by comparing spellings): exempt from the rewrite gate
-SEMANTIC_RULES = {"R-EVAL"}
+SEMANTIC_RULES = {"R-EVAL", "REFGRAD"}
 EXPLANATION = (
     "R-TERM: the canonical term of deep_lift_shap._nonlinear equals the rescale rule exactly as the property states it: "
     "where(|in(x)-in(ref)| < tau, ordinary gradient, grad_output * (out(x)-out(ref)) / (in(x)-in(ref))) with the same orientation "
@@ -30,6 +30,7 @@ def run(repo, tier):
     out += [x for x in dls.halves_rule(repo) if "first half" in x.role or "example half" in x.role]
     # the rescale rule describes the deterministic eval-mode function: a model left in training mode draws fresh RReLU slopes / dropout
     # masks for the example half and the reference half of one batch
+    out += dls.refgrad_rule(repo)
     from .c07 import eval_rule
     out += eval_rule(repo, "deep_lift_shap.deep_lift_shap")
     return out
